@@ -278,6 +278,122 @@ where
     });
 }
 
+// ---------------------------------------------------------------- pairs (x, y) that compare equal but are different states
+/// Target / proposal that tell states apart by their BIT PATTERN (a sign-sensitive density, a reflection proposal):
+/// the statement quantifies over all pairs (x, y), and +0.0 / -0.0 are two states that `==` cannot distinguish.
+#[derive(Clone)]
+struct BitsTarget<F> {
+    y_bits: u64,
+    lp_x: F,
+    lp_y: F,
+}
+impl<S: StateVal, F: Float> Target<S, F> for BitsTarget<F> {
+    fn unnorm_logp(&self, position: &[S]) -> F {
+        if position[0].bits() == self.y_bits { self.lp_y } else { self.lp_x }
+    }
+}
+#[derive(Clone)]
+struct BitsProposal<S, F> {
+    y: S,
+    q_fwd: F,
+    q_back: F,
+}
+impl<S: StateVal, F: Float> Proposal<S, F> for BitsProposal<S, F> {
+    fn sample(&mut self, _current: &[S]) -> Vec<S> {
+        vec![self.y.clone()]
+    }
+    fn logp(&self, _from: &[S], to: &[S]) -> F {
+        if to[0].bits() == self.y.bits() { self.q_fwd } else { self.q_back }
+    }
+    fn set_seed(self, _seed: u64) -> Self {
+        self
+    }
+}
+
+fn one_step_pair<S: StateVal, F: UFloat>(cfg: &StepCfg<F>, x: &S, y: &S, k: u64) -> Result<(u64, bool), String>
+where
+    rand_distr::StandardUniform: rand_distr::Distribution<F>,
+{
+    let target = BitsTarget { y_bits: y.bits(), lp_x: cfg.lp_x, lp_y: cfg.lp_y };
+    let prop = BitsProposal { y: y.clone(), q_fwd: cfg.q_fwd, q_back: cfg.q_back };
+    let mut chain = MHMarkovChain::<S, F, _, _>::new(target, prop, vec![x.clone()]);
+    chain.rng = F::rng_pat(k, 1);
+    let mut reference = F::rng_pat(k, 1);
+    let st = catch(|| chain.step().clone())?;
+    let _: F = reference.random();
+    Ok((st[0].bits(), chain.rng == reference))
+}
+
+fn check_pair<S: StateVal, F: UFloat>(ctx: &Ctx, cfg: &StepCfg<F>, x: &S, y: &S, k: u64, case: &Value)
+where
+    rand_distr::StandardUniform: rand_distr::Distribution<F>,
+{
+    ctx.evals(1);
+    ctx.transitions(1);
+    match one_step_pair::<S, F>(cfg, x, y, k) {
+        Err(m) => ctx.violation(Violation::new("C01:panic", format!("step panicked: {m}"), case.clone())),
+        Ok((bits, premise)) => {
+            if !premise {
+                ctx.machinery_error("cannot inject the acceptance draw (equal-valued pair): the step did not consume exactly the next output of the public `rng`");
+                return;
+            }
+            let want = rule_accepts(cfg.lp_x, cfg.lp_y, cfg.q_fwd, cfg.q_back, F::variate(k));
+            let want_bits = if want { y.bits() } else { x.bits() };
+            ctx.outcome(if x.bits() == y.bits() { "equal-valued pair: y is x" } else if want { "equal-valued pair: y differs in bits / rule accepts" } else { "equal-valued pair: y differs in bits / rule rejects" }, 1);
+            if bits != want_bits {
+                ctx.violation(Violation::new(
+                    "C01:rule(equal-valued pair)",
+                    format!("x = {:x}, candidate y = {:x} (x == y under PartialEq), variate {k}: rule says {}, state after the step is {bits:x}, expected {want_bits:x}", x.bits(), y.bits(), if want { "accept" } else { "reject" }),
+                    case.clone(),
+                ));
+            }
+        }
+    }
+}
+
+fn equal_pairs_level<S: StateVal, F: UFloat>(ctx: &Ctx)
+where
+    rand_distr::StandardUniform: rand_distr::Distribution<F>,
+{
+    let ap = alphabet_p::<F>();
+    let aq = alphabet_q::<F>();
+    let zs = S::odd_zero_states();
+    let mut pairs = vec![];
+    for x in zs.iter() {
+        for y in zs.iter() {
+            if x == y {
+                pairs.push((x.clone(), y.clone()));
+            }
+        }
+    }
+    let mut combos = vec![];
+    for a in 0..ap.len() {
+        for b in 0..ap.len() {
+            for c in 0..aq.len() {
+                for d in 0..aq.len() {
+                    combos.push((a, b, c, d));
+                }
+            }
+        }
+    }
+    combos.par_iter().for_each(|&(a, b, c, d)| {
+        let cfg = StepCfg { lp_x: ap[a], lp_y: ap[b], q_fwd: aq[c], q_back: aq[d] };
+        let r = (cfg.lp_y + cfg.q_back) - (cfg.lp_x + cfg.q_fwd);
+        let t = first_reject_index::<F>(r);
+        let g = F::GRID;
+        let mut ks: Vec<u64> = vec![0, 1, g - 1, g / 2, t.saturating_sub(1), t.min(g - 1)];
+        ks.sort();
+        ks.dedup();
+        for (x, y) in pairs.iter() {
+            for &k in ks.iter() {
+                let case = json!({"level": "equal-pair", "state_ty": S::name(), "float_ty": F::name(), "lp_x": jf(cfg.lp_x.to64()), "lp_y": jf(cfg.lp_y.to64()), "q_fwd": jf(cfg.q_fwd.to64()), "q_back": jf(cfg.q_back.to64()), "k": k.to_string(), "x_bits": format!("{:x}", x.bits()), "y_bits": format!("{:x}", y.bits())});
+                check_pair::<S, F>(ctx, &cfg, x, y, k, &case);
+            }
+        }
+        ctx.state(hash_of(&("equal-pair", S::name(), F::name(), a, b, c, d)));
+    });
+}
+
 /// Count, over ALL 2^24 f32 variates, how many make the real step accept; also check the rule on each.
 fn sweep_f32<S: StateVal>(ctx: &Ctx, cfg: &StepCfg<f32>, label: &str) -> Option<u64> {
     let x = S::from_index(0);
@@ -604,12 +720,21 @@ pub fn run(ctx: &Ctx) {
         }
     }
     let _ = SmallRng::seed_from_u64(0);
-    ctx.rule("step level: (log p(x), log p(y), log q(y|x), log q(x|y)) over {ln1,ln2,ln3,-745,-inf,+inf,NaN}^2 x {0,ln1/2,ln1/4,-inf,NaN}^2 (1225 combinations) x state types {i32,f32,f64} (incl. -0.0 / NaN-payload / subnormal encodings of x) x float types {f32,f64}, acceptance draw injected through the public rng at {0, 1, 2 grid units, the exact accept/reject threshold and 3 neighbours either side, 1-ulp, 1/2} x 4 patterns of the generator word's DISCARDED bits (zeros, ones, rounding tie, just below the tie; full sweeps use all ones); for f32: ALL 2^24 variates for 9 branch classes; history level (E3): all sequences of <= 3 (4) operations {step to candidate y with u low / just accepting / just rejecting / high, relocate the public current_state, replace the public target} on one chain, the rule re-checked after every step against the actual state and target; kernel level: exact acceptance probabilities A(x,y) = #accepting variates / 2^24 on finite spaces K=2 (quick) / 2..4 (thorough), detailed balance and pi P = pi. states = distinct (types, combination) / kernel pairs; transitions = real step() calls");
+    ctx.rule("step level: (log p(x), log p(y), log q(y|x), log q(x|y)) over {ln1,ln2,ln3,-745,-inf,+inf,NaN}^2 x {0,ln1/2,ln1/4,-inf,NaN}^2 (1225 combinations) x state types {i32,f32,f64} (incl. -0.0 / NaN-payload / subnormal encodings of x) x float types {f32,f64}, acceptance draw injected through the public rng at {0, 1, 2 grid units, the exact accept/reject threshold and 3 neighbours either side, 1-ulp, 1/2} x 4 patterns of the generator word's DISCARDED bits (zeros, ones, rounding tie, just below the tie; full sweeps use all ones); equal-valued pairs: the same 1225 combinations with a bit-pattern-sensitive target and proposal on every pair (x, y) of state encodings with x == y under PartialEq (x itself; +0.0 / -0.0 both ways), draws at {0, 1 grid unit, threshold, threshold-1, 1/2, 1-ulp}: the state after the step must be y's bits exactly when the rule accepts; for f32: ALL 2^24 variates for 9 branch classes; history level (E3): all sequences of <= 3 (4) operations {step to candidate y with u low / just accepting / just rejecting / high, relocate the public current_state, replace the public target} on one chain, the rule re-checked after every step against the actual state and target; kernel level: exact acceptance probabilities A(x,y) = #accepting variates / 2^24 on finite spaces K=2 (quick) / 2..4 (thorough), detailed balance and pi P = pi. states = distinct (types, combination) / kernel pairs; transitions = real step() calls");
     step_level::<i32, f32>(ctx);
     step_level::<i32, f64>(ctx);
     step_level::<f32, f32>(ctx);
     step_level::<f64, f64>(ctx);
+    equal_pairs_level::<i32, f32>(ctx);
+    equal_pairs_level::<f32, f32>(ctx);
+    equal_pairs_level::<f64, f64>(ctx);
+    if ctx.outcome_count("equal-valued pair: y differs in bits / rule accepts") == 0 || ctx.outcome_count("equal-valued pair: y differs in bits / rule rejects") == 0 {
+        ctx.machinery_error("vacuity guard: the equal-valued-pair layer met no accepting or no rejecting step between +0.0 and -0.0");
+    }
     if ctx.tier.thorough() {
+        equal_pairs_level::<i32, f64>(ctx);
+        equal_pairs_level::<f32, f64>(ctx);
+        equal_pairs_level::<f64, f32>(ctx);
         step_level::<f32, f64>(ctx);
         step_level::<f64, f32>(ctx);
     }
@@ -647,6 +772,28 @@ pub fn check_case(ctx: &Ctx, case: &Value) {
             (Some("f32"), Some("f64")) => go!(f32, f64),
             (Some("f64"), Some("f32")) => go!(f64, f32),
             (Some("f64"), Some("f64")) => go!(f64, f64),
+            _ => {}
+        }
+    } else if case["level"].as_str() == Some("equal-pair") {
+        let k: u64 = case["k"].as_str().and_then(|s| s.parse().ok()).unwrap_or(0);
+        macro_rules! gp {
+            ($S:ty, $F:ty) => {{
+                let cfg = StepCfg::<$F> { lp_x: pf(&case["lp_x"]) as $F, lp_y: pf(&case["lp_y"]) as $F, q_fwd: pf(&case["q_fwd"]) as $F, q_back: pf(&case["q_back"]) as $F };
+                let xb = u64::from_str_radix(case["x_bits"].as_str().unwrap_or("0"), 16).unwrap_or(0);
+                let yb = u64::from_str_radix(case["y_bits"].as_str().unwrap_or("0"), 16).unwrap_or(0);
+                let zs = <$S as StateVal>::odd_zero_states();
+                if let (Some(x), Some(y)) = (zs.iter().find(|s| s.bits() == xb), zs.iter().find(|s| s.bits() == yb)) {
+                    check_pair::<$S, $F>(ctx, &cfg, x, y, k, case);
+                }
+            }};
+        }
+        match (case["state_ty"].as_str(), case["float_ty"].as_str()) {
+            (Some("i32"), Some("f32")) => gp!(i32, f32),
+            (Some("i32"), Some("f64")) => gp!(i32, f64),
+            (Some("f32"), Some("f32")) => gp!(f32, f32),
+            (Some("f32"), Some("f64")) => gp!(f32, f64),
+            (Some("f64"), Some("f32")) => gp!(f64, f32),
+            (Some("f64"), Some("f64")) => gp!(f64, f64),
             _ => {}
         }
     } else if case["level"].as_str() == Some("varlen") {
